@@ -58,7 +58,9 @@ class Spec:
                          "redo": 6, "mkpath": 2, "rmpath": 1, "ext": 1, "touch": 2}}
         if tier == "thorough":
             o.update(max_targets=12, max_ops=28)
-        return gen.histories(o)
+        from hypothesis import strategies as st
+        # + directed family: verified clean, then force-rebuilt and failed, then another dependent -- all in one run
+        return st.one_of(gen.histories(o), gen.histories(o), gen.histories(o), gen.histories(o), gen.check_then_fail())
 
     def run_case(self, case, tier):
         return Runner(case, self.checks, tag="c05").run()
